@@ -11,6 +11,18 @@ ENGINES = [
 NOT_YET = {}
 TB = "Trusted: Lean kernel; axioms ⊆ {propext, Quot.sound, Classical.choice}; the translator; the harness + canonicalisation; "
 META = {
+    "C04": {
+        "text": "Ledger theorems quantified over the caller-code function f : call index -> (value | panic), hence over every panic index at once: generate/Default, map (4 receiver forms), zip (16 form pairs, drop-tracked elements), fold (4 forms), Clone, try_from_iter/from_iter (stack and boxed, any size hint, non-fused or panicking sources). One generic theorem (fillLoop_ledger / tryFromIter_ledger, induction on the number of destination slots) over any source meeting a one-step ownership contract; each concrete closure loop is shown to meet it, given the statement-order and stored-position fragments regenerated from the source (position stored before the call, value = pos + 1, destination zipped first, finish() after the surplus probe). Correspondence: event ledger of the real crate with an injected panic at every call index, all forms, N in {0..8,16,17,33}; independent exactly-once oracle.",
+        "design_ref": "§5 C04",
+        "note": TB + "modelled not verified: unwinding order, Zip/Map/for_each plumbing of core, Vec/IntoIter of alloc. Boxed generate is covered by C16.",
+        "technique": "Lean 4 ledger proofs (generic source contract + induction) on regenerated order/position fragments + fault-injection correspondence",
+    },
+    "C05": {
+        "text": "Theorems for every iterator position (front <= back <= N), every skip count and every choice of the single panicking destructor: the destructors run in nth/nth_back, the element returned and what the iterator's Drop releases afterwards are exactly the live elements, in order - so nothing is dropped twice or read after drop (nth_no_double_drop, nth_releases_all, nth_no_stale_read; last/count/drop; builder/consumer/array drop ranges). They rest on the regenerated fact that the index is stored before drop_in_place runs; the model with the old order is refuted by `decide` (the defect found and fixed in /repo). Correspondence: drop logs of the real iterator with a panicking destructor for every (N <= 6/8, front, back, n, bad).",
+        "design_ref": "§5 C05",
+        "note": TB + "modelled not verified: slice drop glue continues after a panicking element; unwinding may abandon an in-flight return value (leak, allowed).",
+        "technique": "Lean 4 case analysis over index ranges on regenerated statement order + destructor-fault correspondence",
+    },
     "C01": {
         "text": "Theorem storage_layout, by induction on typenum's binary digits: for every element layout (0 < align, align | size) and every length N, the recursive storage and the transparent wrapper have size N*size_of::<T>() and T's alignment (N = 0 and zero-sized T included); proved for the whole class of repr(C) nodes with two children, 0/1 elements and align-1 ZST fields in any order, into which the struct descriptors regenerated from src/lib.rs are shown to fall by `decide`. Slice-view element offsets are proved inside the object and pairwise disjoint. Correspondence: size_of/align_of/element address of the real type for 19 element layouts x lattice (thorough: every N <= 1025 and every named large length).",
         "design_ref": "§5 C01",
